@@ -327,6 +327,15 @@ def compare_node(case, rb, rn):
             # decided by a wall-clock timeout on the node side
             return "inconclusive", "node:pending-by-timeout"
         if b["state"] != n["state"]:
+            if b["state"].startswith("rejected:") and n["state"].startswith("rejected:") and len(meta["throws"]) > 1:
+                # Several modules of the evaluated graph threw. Which error a later Evaluate() of a member of a failed
+                # cycle reports: the specification returns the promise of the member's [[CycleRoot]] (its error), V8
+                # rejects with the member's own recorded exception. Both must be errors of throwers that ran
+                # (checked by the invariants); the choice itself is not compared.
+                ran = set(_bodies(tb))
+                ok = {"rejected:Error<%s>" % c for m, c in meta["throws"].items() if m in ran}
+                if b["state"] in ok and n["state"] in ok:
+                    return "inconclusive", "node:which-error-of-failed-cycle"
             return "differ", "%s(%s): boa %s, node %s" % (b["what"], b["name"], b["state"], n["state"])
     has_dyn = any(meta["dyn"].values())
     if not has_dyn:
@@ -354,9 +363,10 @@ def compare_node(case, rb, rn):
         sizes = {}
         for m in meta["names"]:
             sizes[comp[m]] = sizes.get(comp[m], 0) + 1
-        if any(sizes[comp[m]] > 1 for m in meta["throws"]):
-            # a throwing module inside a cycle: which members run before it depends on where the cycle is entered
-            return "inconclusive", "node:timing-dependent-entry-into-failing-cycle"
+        if meta["throws"]:
+            # a throwing module: which modules still start depends on where a cycle is entered and on whether an
+            # import()'s evaluation begins before or after an asynchronous module's rejection
+            return "inconclusive", "node:timing-dependent-failure"
         for what, x, y in zip(("bodies started", "bodies finished", "import() settlements"), sb, sn):
             if x != y:
                 return "differ", "%s differ: only boa %s, only node %s" % (
